@@ -3,6 +3,7 @@
  */
 
 #include <stdlib.h>
+#include <limits.h>
 #include <string.h>
 #include <float.h>
 #include <errno.h>
@@ -104,7 +105,7 @@ static int iterBoundaryReset(MPT_INTERFACE(iterator) *it)
 {
 	MPT_STRUCT(iteratorBoundary) *d = MPT_baseaddr(iteratorBoundary, it, _it);
 	d->pos = 0;
-	return d->elem;
+	return d->elem > INT_MAX ? INT_MAX : (int) d->elem;
 }
 
 /*!
